@@ -189,6 +189,61 @@ func orderingGuardsOfTheValue(fn *ssa.Function, v ssa.Value, at ssa.Instruction)
 	return false
 }
 
+// bothSidesGuarded: among the comparisons that dominate at, the value is
+// compared with a positive constant and with a negative one (or its absolute
+// value is compared): a range has two ends.
+func bothSidesGuarded(fn *ssa.Function, v ssa.Value, at ssa.Instruction) bool {
+	related := func(s ssa.Value) bool {
+		if _, isK := s.(*ssa.Const); isK {
+			return false
+		}
+		return s == v || core.SameStorage(s, v) || core.DependsOn(s, func(w ssa.Value) bool { return w == v || core.SameStorage(w, v) })
+	}
+	viaAbs := func(s ssa.Value) bool {
+		return core.DependsOn(s, func(w ssa.Value) bool {
+			call, ok := w.(*ssa.Call)
+			if !ok {
+				return false
+			}
+			cal := call.Call.StaticCallee()
+			return cal != nil && cal.Pkg != nil && cal.Pkg.Pkg.Path() == "math" && cal.Name() == "Abs"
+		})
+	}
+	pos, neg := false, false
+	for _, b2 := range fn.Blocks {
+		if len(b2.Instrs) == 0 || b2 == at.Block() || !b2.Dominates(at.Block()) {
+			continue
+		}
+		iff, ok := b2.Instrs[len(b2.Instrs)-1].(*ssa.If)
+		if !ok {
+			continue
+		}
+		for _, bo := range condLeaves(iff.Cond) {
+			switch bo.Op {
+			case token.LSS, token.LEQ, token.GTR, token.GEQ:
+			default:
+				continue
+			}
+			for _, pair := range [][2]ssa.Value{{bo.X, bo.Y}, {bo.Y, bo.X}} {
+				k, isK := pair[1].(*ssa.Const)
+				if !isK || k.Value == nil || !related(pair[0]) {
+					continue
+				}
+				if viaAbs(pair[0]) {
+					return true
+				}
+				switch constant.Sign(constant.ToFloat(k.Value)) {
+				case 1:
+					pos = true
+				case -1:
+					neg = true
+				}
+			}
+		}
+	}
+	return pos && neg
+}
+
 // condLeaves returns the comparison that decides an If (one leaf: short-circuit
 // conditions are separate blocks in SSA).
 func condLeaves(v ssa.Value) []*ssa.BinOp {
@@ -411,7 +466,7 @@ func converterNarrowingIsRangeChecked(c *core.Ctx) {
 			}
 		}
 		for i, cv := range narrows {
-			okf := orderingGuards(fn, cv.X, cv)
+			okf := orderingGuards(fn, cv.X, cv) && bothSidesGuarded(fn, cv.X, cv)
 			n++
 			c.Check(okf, core.SSAName(fn)+"|float32-under-range-test|"+sprintf("%d", i+1), p.Pos(cv.Pos()),
 				core.SSAName(fn)+" narrows a float64 to float32"+ife(okf, " after an ordering test of the value", " without an ordering test: a value beyond the range of float32 becomes an infinity instead of being refused (o.F32 = 1e300 stores +Inf)"))
